@@ -130,6 +130,14 @@ Definition rfa_match_x (tol : Qc) (m : res (list Qc * list Qc)) (ox : list Qc) (
             else:
                 c["a"] = None
                 c["alpha"] = rng.choice([1.0, 0.5, 0.25, 0.75, 0.125, 0.375, 1.0])
+            if rng.random() < 0.08:
+                # windows wider than one interval (the code accepts a up to 2n; the plateau / shape clauses of C05 / C06 speak
+                # about a <= n only, the grid, locality and equivariance clauses about every accepted parameter)
+                ni = max(2, int(n))
+                if rng.random() < 0.5:
+                    c["a"], c["alpha"] = None, rng.choice([1.25, 1.5, 2.0, 2.0])
+                else:
+                    c["a"], c["alpha"] = rng.choice([ni + 1, 2 * ni, 2 * ni - 1, 2 * ni]), None
         if strategy in ("expfixed", "expadapt"):
             c["beta"] = rng.choice([0.0, 0.25, 0.5, 0.5, 0.75, 1.0])
             c["exp"] = rng.choice(EXPS)
@@ -203,6 +211,18 @@ Definition rfa_match_x (tol : Qc) (m : res (list Qc * list Qc)) (ox : list Qc) (
                  "elem_kinds": sorted({type(v).__name__ for v in (ys if isinstance(ys, list) else [])}),
                  "x": np.asarray(xs, dtype=float).tolist(), "y": np.asarray(ys, dtype=float).reshape(-1).tolist(),
                  "xbytes_equal": bool(np.asarray(xs, dtype=float)[::int(c["n"])].tobytes() == x.tobytes())}
+            # a call must not depend on what callers did with earlier results: edit the returned arrays in place (as a
+            # caller converting units would) and repeat the identical call on fresh copies of the inputs
+            try:
+                first = (np.array(xs, dtype=float).tobytes(), np.array(ys, dtype=float).tobytes())
+                for arr in (xs, ys):
+                    if isinstance(arr, np.ndarray) and arr.flags.writeable and arr.dtype.kind == "f":
+                        arr *= 3.0
+                        arr += 7.5
+                xs2, ys2 = cls_of(c["strategy"])(np.array(c["x"], dtype=float), np.array(c["y"], dtype=float), c["n"], **kwargs_of(c)).rfa()
+                o["repeatable"] = bool((np.array(xs2, dtype=float).tobytes(), np.array(ys2, dtype=float).tobytes()) == first)
+            except Exception as e:
+                o["repeatable"] = "raised %s" % exn_name(e)
             return o
         except Exception as e:
             return {"exc": exn_name(e), "exc_msg": str(e)[:200]}
@@ -306,6 +326,8 @@ Definition rfa_match_x (tol : Qc) (m : res (list Qc * list Qc)) (ox : list Qc) (
             a = window_a(c)
             if a <= n:
                 self.window_oracle(c, o, a, fail, tol)
+        if o.get("repeatable", True) is not True:
+            fail("C04", "history", "the identical call, repeated after the first result was edited in place by the caller, gave another result (%s)" % o.get("repeatable"))
         return F
 
     def window_oracle(self, c, o, a, fail, tol):
@@ -473,7 +495,16 @@ class AdaptiveWindowsUnit(Unit):
         for _ in range(k):
             m = rng.randint(2, 6)
             n = rng.choice([2, 4, 8, 16])
-            c = {"strategy": "linadapt", "x": [float(i) for i in range(m)], "y": [rng.choice(vals) for _ in range(m)], "n": n,
+            ys = [rng.choice(vals) for _ in range(m)]
+            # the same lattice of jumps on a large baseline / at a tiny scale (exact in floats): the split depends on the
+            # jumps only, whatever the magnitude of the values
+            kind = rng.random()
+            if kind < 0.2:
+                base = rng.choice([2.0 ** 20, -(2.0 ** 22), 1.0e6])
+                ys = [base + v for v in ys]
+            elif kind < 0.35:
+                ys = [v * 2.0 ** -30 for v in ys]
+            c = {"strategy": "linadapt", "x": [float(i) for i in range(m)], "y": ys, "n": n,
                  "a": rng.choice([2, 3, n, n // 2, max(2, n - 1)]), "alpha": None, "smooth": rng.choice([1.0, 1.0, 1.0, 2.0, 3.0])}
             if adaptive_windows_exact(c)[2]:
                 cases.append(c)
